@@ -163,7 +163,7 @@ Definition mon_step (m : mstate) (po : obs) (s : step_t) (no : obs) : mstate :=
   | SRecEnd n p => mon_end m po n p
   | SRecover n p => mon_end (mon_begin m po n p) po n p
   | SRestart n => MS (ms_recv m) (ms_msgs m) (filter (fun kx => negb (kx.1.1 =? n) = true) (ms_hw m))
-  | SFb _ | SFbAll | SSub _ _ _ => m
+  | SFb _ | SFbAll | SSub _ _ _ | SStall _ _ => m
   end.
 
 (* Outside the quantifier: an injected operation that names a cluster node as leaseholder with a
